@@ -89,6 +89,18 @@ Definition mv_shape (b : pybuf) : list Z :=
 Definition mv_strides (b : pybuf) : list Z :=
   match pb_strides b with Some s => s | None => [pb_itemsize b] end.
 
+(* every __getbuffer__ of lib.rs starts with
+     if view.is_null() { BufferError }                      (not reachable from Python code)
+     if flags & PyBUF_WRITABLE == PyBUF_WRITABLE { BufferError("Object is not writable") }
+   and then fills ALL fields whatever else was requested: format, shape and strides are
+   handed out even without PyBUF_FORMAT / PyBUF_ND / PyBUF_STRIDES, and a strided matrix
+   is exported even to a PyBUF_C_CONTIGUOUS / PyBUF_SIMPLE request (CPython's own
+   consumers re-check contiguity).  suboffsets and internal are NULL, readonly = 1,
+   view.obj = a new reference to the exporter; there is no __releasebuffer__. *)
+Definition PyBUF_WRITABLE : Z := 1.
+Definition getbuffer_request (flags : Z) (b : pybuf) : res pybuf :=
+  if (Z.land flags PyBUF_WRITABLE =? PyBUF_WRITABLE)%Z then Err EBuffer else Ok b.
+
 Fixpoint dotZ (a b : list Z) : Z :=
   match a, b with
   | x :: a', y :: b' => (x * y + dotZ a' b')%Z
@@ -264,8 +276,10 @@ Section Elem.
     map (fun r => {| ra := r; rp := repeat poison (S - C) |}) t.
 End Elem.
 
-(* row stride (in elements) of DenseMatrix<T, C> on x86-64: rows aligned to 32 bytes *)
-Definition dense_stride (size C : nat) : nat := stride size C 32.
+(* row stride (in elements) of DenseMatrix<T, C> on x86-64: rows aligned to ROW_ALIGN bytes
+   (dense.rs repr(align); re-extracted: GenSlots.gen_row_align) *)
+Definition ROW_ALIGN : nat := 32.
+Definition dense_stride (size C : nat) : nat := stride size C ROW_ALIGN.
 
 (* ---------- which allocation a view points into (known finding F24) ----------
    __getbuffer__ stores the raw pointer of the Vec buffer in the Py_buffer and nothing
@@ -280,13 +294,16 @@ Definition vec_resize (a : valloc) (n : nat) : valloc :=
   if n <=? va_cap a then {| va_id := va_id a; va_cap := va_cap a; va_rows := n |}
   else {| va_id := S (va_id a); va_cap := Nat.max (2 * va_cap a) n; va_rows := n |}.
 
-(* Stripe::stripe allocates with_capacity(rows, rows+32).  The generic stripe_into then
-   reserves rows+32 *additional* rows (capacity 2*rows+64 by amortised growth; 32 for an
-   empty sequence); the AVX2 stripe_into only resizes (capacity rows+32) and for an empty
+(* Stripe::stripe allocates with_capacity(rows, rows+E), E = DEFAULT_EXTRA_ROWS.  The generic
+   stripe_into then reserves rows+E *additional* rows (capacity 2*rows+2*E by amortised growth; E
+   for an empty sequence); the AVX2 stripe_into only resizes (capacity rows+E) and for an empty
    sequence returns early, leaving the default matrix (capacity 0) in place. *)
+Definition DEFAULT_EXTRA_ROWS : nat := 32.    (* seq.rs; re-extracted: GenSlots.gen_extra_rows *)
+
 Definition stripe_alloc (avx2 : bool) (R : nat) : valloc :=
   {| va_id := 0;
-     va_cap := if avx2 then (if R =? 0 then 0 else R + 32) else (if R =? 0 then 32 else 2 * R + 64);
+     va_cap := if avx2 then (if R =? 0 then 0 else R + DEFAULT_EXTRA_ROWS)
+               else (if R =? 0 then DEFAULT_EXTRA_ROWS else 2 * R + 2 * DEFAULT_EXTRA_ROWS);
      va_rows := R |}.
 
 (* configure(motif of M rows) on a sequence of R sequence rows and [wrap] look-ahead rows *)
